@@ -568,6 +568,8 @@ def _hostile_bases():
     B = {
         "connack": E.connack(0, 0, [[33, 10], [39, 1000], [19, 30]] + up),
         "connack0": E.connack(0, 0),
+        "connack_rm0": E.connack(0, 0, [[33, 0]]),            # Receive Maximum 0: a Protocol Error (finding F14)
+        "connack_mps0": E.connack(0, 0, [[39, 0]]),           # Maximum Packet Size 0: a Protocol Error
         "connack_sp": E.connack(1, 0, [[18, "assigned"], [26, "ri"], [28, "ref"]]),
         "auth": E.auth(0x18, [[21, "m"], [22, "d"]]),
         "pub0": E.publish("in/a", "h0|p", 0, ps=[[1, 1], [3, "ct"], [11, 5]] + up),
